@@ -20,11 +20,11 @@ CLAIMED = {
                 design='DESIGN.md 4/C06'),
     'C08': dict(text='Bounded model checking of the real MIR of the recursive-descent parser on token arrays of length 0..6 (8 thorough) whose kinds are unknowns over the full 31-kind alphabet, against an independent reference parser of the documented grammar run on the same symbolic array (both reject, or both accept with structurally equal trees); plus the tokenizer\'s text-to-token table executed from MIR under a contract model of the regex engine. The regex engine\'s own matching (longest match, alternation order, separators, comments) is outside the claim.',
                 design='DESIGN.md 4/C08'),
-    'C10': dict(text='Bounded model checking of the real MIR of print_truth_table_recursive (rsbdd binary) on the canonical diagram of an unknown truth table over 1..3 free variables, unknown filter, ParsedFormula from the real constructor, symbolic ids: for a symbolic total assignment exactly one recorded row covers it when the filter admits its value and none otherwise, with the right result; -m composition (model then print); TruthTableEntry::from_str on an unknown string. Text layout, option parsing, input channels, -b and -v are outside the claim.',
+    'C10': dict(text='Bounded model checking of the real MIR of print_truth_table_recursive (rsbdd binary) on the canonical diagram of an unknown truth table over 1..3 free variables, unknown filter, ParsedFormula from the real constructor, symbolic ids: for a symbolic total assignment exactly one recorded row covers it when the filter admits its value and none otherwise, with the right result; -m composition (model then print); TruthTableEntry::from_str on an unknown string. Whole-main units: the real MIR of main under concrete command lines ({-e, file, stdin} x {-t, -v, -m, -r} x -f unknown x -b 1..3) with the formula a symbolic sketch (clap, file system, tokenizer, parser replaced by their contracts; printing primitives by recorders): header, partition, -r, and the table invariant on entry of every evaluation. Text layout and clap parsing itself are outside the claim.',
                 design='DESIGN.md 4/C10'),
-    'C11': dict(text='Bounded model checking of id assignment under an ordering vector (real tokenizer MIR under the regex contract, unknown names and ids), of to_free_index for arbitrary non-contiguous ids, of the constructor\'s ordering of vars/free_vars, and of the evaluator for all id assignments at once (symbolic ordered atoms). File plumbing and the -r/-o round trip are outside the claim.',
+    'C11': dict(text='Bounded model checking of id assignment under an ordering vector (real tokenizer MIR under the regex contract, unknown names and ids), of to_free_index for arbitrary non-contiguous ids, of the constructor\'s ordering of vars/free_vars, and of the evaluator for all id assignments at once (symbolic ordered atoms). Whole-main units: main under -o <file> -t -r for a family of concrete ordering-file texts with the formula a symbolic sketch over the file\'s names: ordering vector = file order, header / rows / -r by name against the reference semantics.',
                 design='DESIGN.md 4/C11'),
-    'C12': dict(text='Bounded model checking of panic freedom: the panic condition collected by the executor (explicit panics, index bounds, arithmetic overflow in both profiles, expect/unwrap, RefCell borrows, loop bound) is unsatisfiable for tokenize (regex contract, numbers up to 24 digits), parse_formula on all token sequences up to the bound, the constructor, var_is_free and eval on sketches, and printing with non-contiguous ids.',
+    'C12': dict(text='Bounded model checking of panic freedom: the panic condition collected by the executor (explicit panics, index bounds, arithmetic overflow in both profiles, expect/unwrap, RefCell borrows, loop bound) is unsatisfiable for tokenize (regex contract, numbers up to 24 digits), parse_formula on all token sequences up to the bound, the constructor, var_is_free and eval on sketches, printing with non-contiguous ids, the Graphviz descriptions, and the whole main of the binary under combinations of -t -v -m -r -c -b -o.',
                 design='DESIGN.md 4/C12'),
     'C09': dict(text='Bounded model checking of var_is_free, of the constructor (new_with_env / extract_vars / sort closure / raw2free loop; tokenizer and parser stubbed to return the sketch) and of the support of the evaluated diagram on syntax-tree sketches with all labels symbolic over 3 atoms: exact free-variable sets in variable order, every id once in vars, consistent raw2free, answers depend only on free variables.',
                 design='DESIGN.md 4/C09'),
@@ -43,18 +43,19 @@ CLAIMED = {
                 design='DESIGN.md 4/C05'),
     'C07': dict(text='Bounded model checking of model and infer: false leaf iff unsatisfiable, single cube, implies f, mentions only support variables; infer (true,true) iff forced.',
                 design='DESIGN.md 4/C07'),
+    'C14': dict(text='Bounded model checking of the crate\'s Graphviz descriptions with dot::render replaced by its contract (node statements from nodes()/node_id/node_label, edge statements from edges()/source/target/edge_label): the real MIR of BDDGraph (src/bdd_io.rs) on the canonical diagram of every function of 1..2 (3) variables with an unknown filter - ids distinct, edges between declared nodes, read back from the root along T/F edges the description evaluates to the function, only the leaf opposite to the filter is missing - and of SymbolicParseTree (src/parser_io.rs) on formula sketches - shared identical sub-terms, one root, labels / edge labels / out-degrees read back as a term give the parsed tree; main hands the evaluated diagram with the filter (-d) and the parsed tree (-p) to the renderer. Rendered addresses are identified with node structure (sharing: C13). The DOT text itself is checked on replayed cases only.',
+                design='DESIGN.md 4/C14'),
     'C15': dict(text='Translation validation of n_queens_gen: for every board size in the bound the real binary\'s output is parsed by an independent front end (and the real parser) and the solver decides that the emitted formula and the n-queens specification agree on ALL 2^(n*n) assignments; for n <= 4 the real evaluator\'s truth table is also compared.', design='DESIGN.md 4/C15', category='translation_validation', engine='gencheck', note=TV_NOTE, technique='translation validation: real generator output vs independent specification, equivalence over all assignments decided by z3'),
     'C16': dict(text='Translation validation of max_clique_gen over all simple graphs on <= 3 vertices (one-directional and symmetric), duplicates, self loops, seeded multigraphs, helper-name collisions, x {-u} x {-a}: emitted formula == maximum-clique (all-clique) specification on every vertex subset.', design='DESIGN.md 4/C16', category='translation_validation', engine='gencheck', note=TV_NOTE, technique='translation validation: real generator output vs independent specification, equivalence over all assignments decided by z3'),
     'C17': dict(text='Translation validation of sudoku_gen for r = 1, 2 over a family of puzzle texts (empty, full, short, over-long, contradictory, ASCII and non-ASCII blanks and whitespace) and r = 3 for seeded puzzles: emitted formula == sudoku specification on all assignments (64 / 729 variables).', design='DESIGN.md 4/C17', category='translation_validation', engine='gencheck', note=TV_NOTE, technique='translation validation: real generator output vs independent specification, equivalence over all assignments decided by z3'),
     'C18': dict(text='Bounded model checking of generate_graph from the random_graph_gen binary\'s MIR (V = 0..3 concrete, E an unknown usize, -u unknown, thread_rng opaque, shuffle an arbitrary permutation given by an unknown one-hot matrix): refused exactly when infeasible, otherwise exactly E distinct edges between distinct vertices with no pair in both orientations under -u, for every permutation; requests, --complete, --convert and --colors are validated through the real binary (for --colors the solver decides both the covering-clique and the k-colourability side).', design='DESIGN.md 4/C18'),
     'C19': dict(text='Bounded model checking of every BDDSet operation (insert, union, intersect, complement, empty, universe, contains) as one inductive step from an arbitrary state: two sets over 2..3 bits with unknown truth tables sharing an environment, distinct or the same object, element an unconstrained usize; post-state equals the reference set operation for every element, the other set is unchanged, queries do not modify, no panic (RefCell borrow counter modelled).',
                 design='DESIGN.md 4/C19'),
-    'C20': dict(text='Bounded model checking of retain_choice_bottom_up for every function of k variables and a symbolic filter: direction of implication, identity for Any, ordered/reduced, support.',
+    'C20': dict(text='Bounded model checking of retain_choice_bottom_up for every function of k variables and a symbolic filter: direction of implication, identity for Any, ordered/reduced, support; and through the real main under -c <unknown> -t with formula sketches.',
                 design='DESIGN.md 4/C20'),
 }
 
 NOT_APPLICABLE = {
-    'C14': 'DOT text is produced by the external `dot` crate from address-based node identifiers (format!("n_{:p}")): neither is reachable for a value-semantics MIR executor or for Kani; see DESIGN.md 4/C14',
 }
 
 PENDING = 'not yet built in this round: the check for this property is still under construction (see DESIGN.md 4 for the plan); it is not claimed until it exists'
